@@ -2,7 +2,6 @@
 C13 — facts about the listen-address parser model (Listen.lean).
 -/
 import CaddyModel.C13.Listen
-import CaddyModel.C18.Props
 
 namespace CaddyModel.C13
 
@@ -115,8 +114,10 @@ theorem parse_plain_host_port (h ds dflt : Bytes) (hh : ∀ b ∈ h, plainHostBy
 theorem parseAdminListenAddrP_no_braces (env : C18.Env) (addr dflt : Bytes)
     (h1 : addr.contains C18.phOpen = false) (h2 : addr.contains C18.phClose = false) :
     parseAdminListenAddrP env addr dflt = parseAdminListenAddr addr dflt := by
+  have hid : ∀ m, C18.replace addr env m = .ok addr := by
+    intro m; unfold C18.replace; rw [h1, h2]; rfl
   unfold parseAdminListenAddrP parseAdminListenAddr C18.replaceOrErr
-  rw [C18.no_braces_identity addr env _ h1 h2]
+  rw [hid]
 
 theorem cutAt_unix_prefix (path : Bytes) : cutAt slash (sUnix ++ slash :: path) = some (sUnix, path) := by
   simp [cutAt, sUnix, slash]
